@@ -305,8 +305,30 @@ func operatorTableCases() []RTCase {
 	return out
 }
 
+// stringPairs: every ordered pair of the single-class representatives, so that a printer with a fast
+// and a slow path (chosen by one class) is exercised with every other class in the same string.
+func stringPairs() []string {
+	single := []string{"a", "\"", "\\", "/", "'", "\u0001", "\u0007", "\u0008", "\n", "\t", "\u007f", "\u0080", "\u00a0", "é", "\u2028", "\ufeff", "😀", "\U000e0001", "\U0010ffff", "\\a", "\\U", "\\u", "$", " "}
+	var out []string
+	for _, a := range single {
+		for _, b := range single {
+			if a != b {
+				out = append(out, a+b, a+"x"+b)
+			}
+		}
+	}
+	return out
+}
+
 func literalTableCases() []RTCase {
 	var out []RTCase
+	for _, s := range stringPairs() {
+		q := QuoteJP(s)
+		out = append(out, RTCase{Text: q, Docs: []string{`null`}}, RTCase{Text: "$." + q + " == $" + q, Docs: []string{`{"a":1}`}})
+		if _, err := path.Parse("$ like_regex " + q + ` flag "q"`); err == nil {
+			out = append(out, RTCase{Text: "$ like_regex " + q + ` flag "q"`, Docs: []string{QuoteJSON(s)}})
+		}
+	}
 	for _, s := range stringCorpus {
 		q := QuoteJP(s)
 		out = append(out,
